@@ -230,6 +230,11 @@ struct Shape {
 	/// reply itself to tx_lock_outputs, as the synchronous send does
 	#[serde(default)]
 	lock_with_reply: bool,
+	/// before replying, the counterparty reflects the sender's own first slate to the sender's foreign
+	/// receive_tx (the sender then also holds a TxReceived entry under the same slate id, as in a
+	/// self-send); the honest reply may be refused afterwards, an altered one must be
+	#[serde(default)]
+	reflect_first: bool,
 }
 
 fn shapes(thorough: bool) -> Vec<Shape> {
@@ -238,9 +243,15 @@ fn shapes(thorough: bool) -> Vec<Shape> {
 		for late in [false, true].iter() {
 			for acct in [Acct::Default, Acct::Acct1Active, Acct::Acct1Src, Acct::Acct1SrcDefaultActive].iter() {
 				for amt in [Amt::Small, Amt::Exact, Amt::Split2].iter() {
-					v.push(Shape { amt: *amt, acct: *acct, late: *late, lock_with_reply: false });
+					v.push(Shape { amt: *amt, acct: *acct, late: *late, lock_with_reply: false, reflect_first: false });
 					if !*late && *acct != Acct::Acct1SrcDefaultActive {
-						v.push(Shape { amt: *amt, acct: *acct, late: false, lock_with_reply: true });
+						v.push(Shape { amt: *amt, acct: *acct, late: false, lock_with_reply: true, reflect_first: false });
+					}
+					if *acct == Acct::Default || *acct == Acct::Acct1Active {
+						v.push(Shape { amt: *amt, acct: *acct, late: *late, lock_with_reply: false, reflect_first: true });
+						if !*late {
+							v.push(Shape { amt: *amt, acct: *acct, late: false, lock_with_reply: true, reflect_first: true });
+						}
 					}
 				}
 			}
@@ -248,27 +259,30 @@ fn shapes(thorough: bool) -> Vec<Shape> {
 		v
 	} else {
 		vec![
-			Shape { amt: Amt::Small, acct: Acct::Default, late: false, lock_with_reply: false },
-			Shape { amt: Amt::Exact, acct: Acct::Default, late: false, lock_with_reply: false },
-			Shape { amt: Amt::Split2, acct: Acct::Default, late: false, lock_with_reply: false },
-			Shape { amt: Amt::Small, acct: Acct::Acct1Active, late: false, lock_with_reply: false },
-			Shape { amt: Amt::Split2, acct: Acct::Acct1Src, late: false, lock_with_reply: false },
-			Shape { amt: Amt::Small, acct: Acct::Acct1SrcDefaultActive, late: false, lock_with_reply: false },
-			Shape { amt: Amt::Exact, acct: Acct::Acct1Active, late: false, lock_with_reply: false },
-			Shape { amt: Amt::Small, acct: Acct::Default, late: false, lock_with_reply: true },
-			Shape { amt: Amt::Small, acct: Acct::Default, late: true, lock_with_reply: false },
-			Shape { amt: Amt::Split2, acct: Acct::Acct1Active, late: true, lock_with_reply: false },
+			Shape { amt: Amt::Small, acct: Acct::Default, late: false, lock_with_reply: false, reflect_first: false },
+			Shape { amt: Amt::Exact, acct: Acct::Default, late: false, lock_with_reply: false, reflect_first: false },
+			Shape { amt: Amt::Split2, acct: Acct::Default, late: false, lock_with_reply: false, reflect_first: false },
+			Shape { amt: Amt::Small, acct: Acct::Acct1Active, late: false, lock_with_reply: false, reflect_first: false },
+			Shape { amt: Amt::Split2, acct: Acct::Acct1Src, late: false, lock_with_reply: false, reflect_first: false },
+			Shape { amt: Amt::Small, acct: Acct::Acct1SrcDefaultActive, late: false, lock_with_reply: false, reflect_first: false },
+			Shape { amt: Amt::Exact, acct: Acct::Acct1Active, late: false, lock_with_reply: false, reflect_first: false },
+			Shape { amt: Amt::Small, acct: Acct::Default, late: false, lock_with_reply: true, reflect_first: false },
+			Shape { amt: Amt::Small, acct: Acct::Default, late: false, lock_with_reply: false, reflect_first: true },
+			Shape { amt: Amt::Small, acct: Acct::Default, late: false, lock_with_reply: true, reflect_first: true },
+			Shape { amt: Amt::Small, acct: Acct::Default, late: true, lock_with_reply: false, reflect_first: false },
+			Shape { amt: Amt::Split2, acct: Acct::Acct1Active, late: true, lock_with_reply: false, reflect_first: false },
 		]
 	}
 }
 
 fn lock_mode(s: &Shape) -> &'static str {
-	if s.late {
-		"late-locked"
-	} else if s.lock_with_reply {
-		"locked-with-reply"
-	} else {
-		"locked-at-send"
+	match (s.late, s.lock_with_reply, s.reflect_first) {
+		(true, _, false) => "late-locked",
+		(false, true, false) => "locked-with-reply",
+		(false, false, false) => "locked-at-send",
+		(true, _, true) => "late-locked/first-slate-reflected",
+		(false, true, true) => "locked-with-reply/first-slate-reflected",
+		(false, false, true) => "locked-at-send/first-slate-reflected",
 	}
 }
 
@@ -366,6 +380,10 @@ fn prepare(dir: &str, base: &Snapshot, s: &Shape) -> Result<Snapshot, String> {
 		if !s.late && !s.lock_with_reply {
 			a.lock(&s1).map_err(e)?;
 		}
+		if s.reflect_first {
+			let _ = catch(|| a.receive(&s1, None));
+			let _ = take_last_panic();
+		}
 		let s2 = b.receive(&s1, None).map_err(e)?;
 		Ok(Prep { s1: slate_to_json(&s1), s2: slate_to_json(&s2), amount })
 	})();
@@ -427,6 +445,7 @@ fn run_finalize_inner(w: &World, s: &Shape, alt: Option<PAlt>) -> Result<String,
 		// a refusal at this step is as good as one at finalization
 		if let Ok(Err(e)) = catch(|| a.lock(&mutated)) {
 			return match alt {
+				None if s.reflect_first => Ok(format!("honest:refused-after-reflection:{}", err_class(&e))),
 				None => Err((format!("C11/honest-refused/{}", lock_mode(s)), format!("tx_lock_outputs refused the unaltered reply of {:?}: {}", s, e))),
 				Some(_) => Ok(format!("refused-at-lock:{}", err_class(&e))),
 			};
@@ -448,6 +467,7 @@ fn run_finalize_inner(w: &World, s: &Shape, alt: Option<PAlt>) -> Result<String,
 		},
 		Ok(Err(e)) => match alt {
 			None if s.acct == Acct::Acct1SrcDefaultActive => Ok(format!("honest:refused-under-other-account:{}", err_class(&e))),
+			None if s.reflect_first => Ok(format!("honest:refused-after-reflection:{}", err_class(&e))),
 			None => Err((format!("C11/honest-refused/{}", lock_mode(s)), format!("owner::finalize_tx refused the unaltered reply of {:?}: {}", s, e))),
 			Some(_) => Ok(format!("refused:{}", err_class(&e))),
 		},
